@@ -176,6 +176,9 @@ def make_operation(case, f, a, b, integration_cls=None, uq_cls=None, ref=None):
     return uq_cls(f, distr, a, b, reference_solution=ref)
 
 
+CALLER_OBJECTS = {}
+
+
 def build(case, f=None, integration_cls=None, op=None, wrap=None, uq_cls=None):
     """Returns (instance, operation, function, error_calculator). strat: 'dw' | 'es' | 'cell' | 'std' | 'da'.
     op: an existing operation (with its grid and function) to be reused by a new strategy instance, as the repo's tests do.
@@ -195,6 +198,8 @@ def build(case, f=None, integration_cls=None, op=None, wrap=None, uq_cls=None):
     strat = case['strat']
     boundary = case.get('boundary', True)
     wrap = wrap or (lambda cls: cls)
+    CALLER_OBJECTS.clear()
+    CALLER_OBJECTS.update(a=a, b=b, ref=ref)          # the objects the caller hands over (axis (j): the caller may mutate them later)
     if strat == 'dw':
         from sparseSpACE.spatiallyAdaptiveSingleDimension2 import SpatiallyAdaptiveSingleDimensions2
         if op is None:
